@@ -84,6 +84,17 @@ type gspec struct {
 	hasMid   bool
 	items    int
 	rank     int // batches are formed in rank order (then simplest first)
+	// tmpl: the single rule is the body of a %flag template T<F> instantiated from the input rule
+	tmpl *tmplSpec
+	// noNtTypes: no nonterminal has a type (only terminals do)
+	noNtTypes bool
+}
+
+// tmplSpec describes the input rule of a template grammar: S: P<list> tz T<inst0> T<inst1> ...
+type tmplSpec struct {
+	list      string   // "", "+", "*": how the helper nonterminal P appears in the input rule
+	insts     []string // "+F" / "~F" per instance of T
+	declFirst bool     // P is declared before T (it keeps its number through instantiation)
 }
 
 func (g *gspec) ruleTexts() string {
@@ -191,36 +202,86 @@ func (g *gspec) finish(name string) bool {
 	var sb strings.Builder
 	fmt.Fprintf(&sb, "language %s(go);\n\npackage = \"scratch/%s\"\neventBased = true\n\n:: lexer\n\nWhiteSpace: /[ ]+/ (space)\n", name, name)
 	for _, t := range tl {
-		if termType(t) == "string" {
+		if termType(t) == "" {
+			fmt.Fprintf(&sb, "%s: /%s/\n", t, t[1:])
+		} else if termType(t) == "string" {
 			fmt.Fprintf(&sb, "%s {string}: /%s/ { $$ = \"fmt\".Sprintf(\"s%%d\", l.tokenOffset) }\n", t, t[1:])
 		} else {
 			fmt.Fprintf(&sb, "%s {int}: /%s/ { $$ = 100 + l.tokenOffset }\n", t, t[1:])
 		}
 	}
-	sb.WriteString("\n:: parser\n\n%input S;\n\nS {interface{}}:\n")
-	for i, r := range g.rules {
-		lead := "    "
-		if i > 0 {
-			lead = "  | "
+	pRule := "P {float64}:\n    tp tq { $$ = float64(200+$tp) + 0.5 }\n;\n\n"
+	switch {
+	case g.tmpl != nil:
+		r := g.rules[0]
+		r.name = "T"
+		terms["tp"], terms["tq"], terms["tz"] = true, true, true
+		alt := "t" + string(rune('a'+len(tl))) // a terminal the body does not use
+		for terms[alt] {
+			alt = "t" + string(rune(alt[1]+1))
 		}
-		pre := ""
-		if g.prefix[i] != "" {
-			pre = "t" + g.prefix[i] + " "
+		terms[alt] = true
+		tl = tl[:0]
+		for t := range terms {
+			tl = append(tl, t)
 		}
-		fmt.Fprintf(&sb, "%s%s%s { \"scratch/rt\".Record(\"top %%T:%%v %%T:%%v %%T:%%v\", $%s, $%s, ${%s.offset}, ${%s.offset}, ${%s.endoffset}, ${%s.endoffset}); $$ = $%s }\n", lead, pre, r.name, r.name, r.name, r.name, r.name, r.name, r.name, r.name)
-	}
-	sb.WriteString(";\n\n")
-	for _, r := range g.rules {
-		fmt.Fprintf(&sb, "%s {int}:\n    %s\n;\n\n", r.name, seqText(r.body))
-	}
-	if terms["tp"] {
-		sb.WriteString("P {float64}:\n    tp tq { $$ = float64(200+$tp) + 0.5 }\n;\n\n")
+		sort.Strings(tl)
+		sb.Reset()
+		fmt.Fprintf(&sb, "language %s(go);\n\npackage = \"scratch/%s\"\neventBased = true\n\n:: lexer\n\nWhiteSpace: /[ ]+/ (space)\n", name, name)
+		for _, t := range tl {
+			if termType(t) == "" {
+				fmt.Fprintf(&sb, "%s: /%s/\n", t, t[1:])
+			} else if termType(t) == "string" {
+				fmt.Fprintf(&sb, "%s {string}: /%s/ { $$ = \"fmt\".Sprintf(\"s%%d\", l.tokenOffset) }\n", t, t[1:])
+			} else {
+				fmt.Fprintf(&sb, "%s {int}: /%s/ { $$ = 100 + l.tokenOffset }\n", t, t[1:])
+			}
+		}
+		sb.WriteString("\n:: parser\n\n%input S;\n\n%flag F;\n\nS {string}:\n    P" + g.tmpl.list + " tz")
+		for _, in := range g.tmpl.insts {
+			sb.WriteString(" T<" + in + ">")
+		}
+		sb.WriteString(" { \"scratch/rt\".Record(\"top\"); $$ = \"top\" }\n;\n\n")
+		if g.tmpl.declFirst {
+			sb.WriteString(pRule)
+		}
+		fmt.Fprintf(&sb, "T<F> {int}:\n    %s\n  | [F] %s { $$ = 0 }\n;\n\n", seqText(r.body), alt)
+		if !g.tmpl.declFirst {
+			sb.WriteString(pRule)
+		}
+	case g.noNtTypes:
+		r := g.rules[0]
+		fmt.Fprintf(&sb, "\n:: parser\n\n%%input S;\n\nS:\n    %s { \"scratch/rt\".Record(\"top %%T:%%v %%T:%%v %%T:%%v\", nil, nil, ${%s.offset}, ${%s.offset}, ${%s.endoffset}, ${%s.endoffset}) }\n;\n\n%s:\n    %s\n;\n\n", r.name, r.name, r.name, r.name, r.name, r.name, seqText(r.body))
+	default:
+		sb.WriteString("\n:: parser\n\n%input S;\n\nS {interface{}}:\n")
+		for i, r := range g.rules {
+			lead := "    "
+			if i > 0 {
+				lead = "  | "
+			}
+			pre := ""
+			if g.prefix[i] != "" {
+				pre = "t" + g.prefix[i] + " "
+			}
+			fmt.Fprintf(&sb, "%s%s%s { \"scratch/rt\".Record(\"top %%T:%%v %%T:%%v %%T:%%v\", $%s, $%s, ${%s.offset}, ${%s.offset}, ${%s.endoffset}, ${%s.endoffset}); $$ = $%s }\n", lead, pre, r.name, r.name, r.name, r.name, r.name, r.name, r.name, r.name)
+		}
+		sb.WriteString(";\n\n")
+		for _, r := range g.rules {
+			fmt.Fprintf(&sb, "%s {int}:\n    %s\n;\n\n", r.name, seqText(r.body))
+		}
+		if terms["tp"] {
+			sb.WriteString(pRule)
+		}
 	}
 	if look {
 		fmt.Fprintf(&sb, "Z:\n    %s\n;\n", strings.Join(tl, " | "))
 	}
 	g.tm = sb.String()
 
+	if g.tmpl != nil {
+		g.templateCases()
+		return len(g.cases) > 0
+	}
 	for ri, r := range g.rules {
 		for _, e := range r.exps {
 			nt := len(tokens(e))
@@ -260,6 +321,9 @@ func (g *gspec) finish(name string) bool {
 				if endRan {
 					top.Vals[0] = fmt.Sprintf("int:%d", lhs)
 				}
+				if g.noNtTypes {
+					top.Vals[0] = "<nil>:<nil>"
+				}
 				if rs >= 0 {
 					top.Vals[1], top.Vals[2] = fmt.Sprintf("int:%d", rs), fmt.Sprintf("int:%d", re)
 					// the range of a rule whose last stack symbol is empty (an empty list) ends where
@@ -280,6 +344,59 @@ func (g *gspec) finish(name string) bool {
 		}
 	}
 	return len(g.cases) > 0
+}
+
+// templateCases: every instance of T reduces one expansion of the rule; the i-th sentence gives
+// instance k the (i+k)-th expansion. Each instance records what the rule's actions record, with
+// the positions of that instance.
+func (g *gspec) templateCases() {
+	r := g.rules[0]
+	var exps [][]entry
+	for _, e := range r.exps {
+		if n := len(tokens(e)); n > 0 && n <= L-1 {
+			exps = append(exps, e)
+		}
+		present := map[int]bool{}
+		for _, en := range e {
+			if en.pos > 0 {
+				present[en.pos] = true
+			}
+		}
+		if len(present) < r.npos {
+			g.absent = true
+		}
+	}
+	prefix := map[string]string{"": "pq", "+": "pqpq", "*": "pq"}[g.tmpl.list] + "z"
+	for i := range exps {
+		for _, sp := range spacings {
+			var all []entry
+			var cut []int
+			for k := range g.tmpl.insts {
+				all = append(all, exps[(i+k)%len(exps)]...)
+				cut = append(cut, len(all))
+			}
+			text, placed, _, _ := place(prefix, all, sp)
+			var want []wrec
+			from := 0
+			for _, to := range cut {
+				part := placed[from:to]
+				for j, en := range part {
+					if en.k != kAct {
+						continue
+					}
+					vals, pres := r.expect(part, j)
+					where := "end"
+					if en.act.mid {
+						where = "mid"
+					}
+					want = append(want, wrec{Tag: en.act.tag, Vals: vals, pres: pres, refs: en.act.refs, where: where})
+				}
+				from = to
+			}
+			want = append(want, wrec{Tag: "top", where: "parent"})
+			g.cases = append(g.cases, xcase{text: text, want: want})
+		}
+	}
 }
 
 // ---- enumeration of the family
@@ -345,6 +462,7 @@ func enumerate(quick bool) []*gspec {
 	var out []*gspec
 	seen := map[string]bool{}
 	curItems, curRank := 0, 0
+	var mode func(g *gspec) // set around add() for the special grammar modes
 	add := func(desc string, rules ...*rule) {
 		for _, r := range rules {
 			if r == nil {
@@ -352,6 +470,9 @@ func enumerate(quick bool) []*gspec {
 			}
 		}
 		g := &gspec{desc: desc, rules: rules, items: curItems, rank: curRank}
+		if mode != nil {
+			mode(g)
+		}
 		for i := range rules {
 			if i == 0 {
 				g.prefix = append(g.prefix, "")
@@ -430,6 +551,33 @@ func enumerate(quick bool) []*gspec {
 			}
 		}
 	}
+	// templates: the body (catalogue items, maximal non-adjacent action placement) becomes the
+	// rule of a %flag template T<F>, instantiated from the input rule next to a list of P
+	templates := func(items []int, lists []string, insts [][]string, decl []bool) {
+		curItems = len(items) + 2
+		for _, l := range lists {
+			for _, in := range insts {
+				for _, d := range decl {
+					greedy := greedySel(items, true)
+					r := makeRule(items, func([]gap) map[int]bool { return greedy }, true, -1)
+					if r == nil || len(r.body) == 0 || nullableSeq(r.body) {
+						continue
+					}
+					mode = func(g *gspec) { g.tmpl = &tmplSpec{list: l, insts: in, declFirst: d} }
+					add(fmt.Sprintf("%s / template T<F> with instances %v, input rule P%s tz T..., P declared first=%v", itemNames(items), in, l, d), r)
+					mode = nil
+				}
+			}
+		}
+	}
+	// a grammar in which only terminals are typed
+	typedTerminalsOnly := func() {
+		curItems = 1
+		body := []*node{S("ta"), {k: kAct, tag: "e"}}
+		mode = func(g *gspec) { g.noNtTypes = true }
+		add("s / end action only, no nonterminal has a type", &rule{body: body})
+		mode = nil
+	}
 	idx := func(names ...string) []int {
 		var t []int
 		for _, n := range names {
@@ -446,6 +594,20 @@ func enumerate(quick bool) []*gspec {
 		}
 		return t
 	}
+	// Sentinels (rank -1): one or two of the most telling grammars of every family, run as the very
+	// first batch so that even a run cut short by the budget on a loaded machine has seen each
+	// family once. (The same grammars are skipped as duplicates when their family comes up.)
+	curRank = -1
+	templates(idx("P", "s"), []string{"+"}, [][]string{{"+F", "~F"}}, []bool{true})
+	curItems = 3
+	rebound(add, "ta", "tc", "te", false)
+	single(idx("(s|s)[x]"), vEnd)
+	single(idx("(s s?)[x]"), vEnd)
+	single(idx("s?", "s"), vGreedy)
+	single(idx("s", "(s separator s)*[x]", "s"), vEnd)
+	single(idx("s", "U"), vEnd)
+	typedTerminalsOnly()
+	curRank = 0
 	if quick {
 		// 1 item: whole catalogue; single-gap placements for the reduced catalogue only
 		tuples(1, len(catalogue), func(t []int) {
@@ -462,9 +624,8 @@ func enumerate(quick bool) []*gspec {
 		curRank = 1
 		curItems = 3
 		rebound(add, "ta", "tc", "te", true)
-		rebound(add, "tb", "td", "te", false)
 		pairs(idx("s", "s"), false, true)
-		for _, t := range [][]int{idx("s?", "s"), idx("(s|s)[x]", "s"), idx("s+[x]", "s"), idx("P", "s"), idx("s", "s", "s")} {
+		for _, t := range [][]int{idx("s?", "s"), idx("(s|s)[x]", "s"), idx("s+[x]", "s"), idx("s", "s", "s")} {
 			pairs(t, false, false)
 		}
 		// 2 items: reduced catalogue, maximal non-adjacent placement
@@ -476,7 +637,7 @@ func enumerate(quick bool) []*gspec {
 			}
 			single(t, v)
 		})
-		for _, t := range [][]int{idx("s", "dup"), idx("s?", "dup"), idx("s?", "(s|s s)"), idx("s", "set(s|s)[x]"), idx("s?", "(s separator s)+"), idx("s*[x]", "s"), idx("s", "(s (s|s)?)?"), idx("(s?|P)[x]", "s"), idx("s", "(s separator s)*[x]"), idx("(s separator s)*[x]", "s")} {
+		for _, t := range [][]int{idx("s", "dup"), idx("s?", "(s|s s)"), idx("s", "set(s|s)[x]"), idx("s?", "(s separator s)+"), idx("s*[x]", "s"), idx("s", "(s (s|s)?)?"), idx("(s?|P)[x]", "s"), idx("s", "(s separator s)*[x]"), idx("(s separator s)*[x]", "s")} {
 			single(t, vGreedy)
 		}
 		// 3 items with a lookahead in the middle
@@ -486,6 +647,18 @@ func enumerate(quick bool) []*gspec {
 			}
 		}
 		single(idx("s", "(?=Z)", "s"), vFL)
+		// the untyped terminal after / before / instead of a typed one
+		curRank = 1
+		single(idx("s", "U"), vEnd|vGreedy)
+		single(idx("s?", "U"), vEnd)
+		// first() on a leading lookahead (known finding first-last)
+		single(idx("(?=Z)", "s"), vFL)
+		typedTerminalsOnly()
+		// templates
+		templates(idx("P", "s"), []string{"+"}, [][]string{{"+F", "~F"}}, []bool{true})
+		templates(idx("s", "P"), []string{"+"}, [][]string{{"+F", "~F"}}, []bool{false})
+		templates(idx("P?", "s"), []string{"*"}, [][]string{{"~F", "+F"}}, []bool{true})
+		curRank = 2
 		// a separated * list in the middle (neither first() nor last() of any action)
 		single(idx("s", "(s separator s)*[x]", "s"), vEnd)
 		single(idx("s", "s?", "s"), vGreedy|vAll)
@@ -508,6 +681,10 @@ func enumerate(quick bool) []*gspec {
 		}
 		single(t, v)
 	})
+	typedTerminalsOnly()
+	for _, t := range [][]int{idx("P", "s"), idx("s", "P"), idx("P?", "s"), idx("s", "P?"), idx("P", "s?"), idx("(s|P)[x]", "s"), idx("P", "(s|s)[x]"), idx("s", "P", "s")} {
+		templates(t, []string{"+", "*", ""}, [][]string{{"+F", "~F"}, {"~F", "+F"}, {"+F"}, {"+F", "~F", "+F"}}, []bool{true, false})
+	}
 	curRank = 3
 	tuples(2, reducedCatalogue, func(t []int) { pairs(t, true, true) })
 	curRank = 4
@@ -700,6 +877,9 @@ func compare(want []wrec, res genharness.Result, g *grammar.Grammar) (key, msg s
 			compared++
 			classes[w.where+"/"+w.refs[j].Class+"/"+w.pres[j]]++
 			if f[j+1] != v {
+				if w.refs[j].untyped {
+					return "untyped-terminal:stale-lexer-value", fmt.Sprintf("action %s (%s): %s names an untyped terminal (no type, no lexer action, hence no value) but evaluates to %s, must be %s", w.Tag, w.where, w.refs[j].Text, f[j+1], v), compared, classes
+				}
 				if w.where == "mid" && shared {
 					return "midrule-dedupe:wrong-stack-slot", fmt.Sprintf("mid-rule action %s: %s evaluates to %s, must be %s; %s", w.Tag, w.refs[j].Text, f[j+1], v, diag), compared, classes
 				}
@@ -751,12 +931,19 @@ func run(c *core.Ctx) {
 	// Grammars that can put two actions next to each other go into batches of their own: the
 	// generated code for those does not build at present (finding adjacent-actions), and one
 	// failing package costs a rebuild of the whole batch.
-	// Order: single rules of one item, then the basic pairs, then the rest (each simplest first),
-	// so that a run cut short by the budget has still seen every family.
+	// Order: the sentinels, single rules of one item, then the pairs / templates / untyped terminal,
+	// then the rest (each simplest first), so that a run cut short by the budget has still seen
+	// every family.
 	var order []*gspec
 	var cuts []int // batch boundaries that must be respected (indices into order)
 	// a tiny leading batch with the three simplest adjacency grammars, so that this family is seen
 	// even when the budget cuts the run short
+	for _, g := range specs {
+		if !g.adj && g.rank == -1 {
+			order = append(order, g)
+		}
+	}
+	cuts = append(cuts, len(order))
 	lead := map[*gspec]bool{}
 	for _, g := range specs {
 		if g.adj && g.rank == 0 && len(lead) < 3 {
@@ -830,6 +1017,9 @@ func run(c *core.Ctx) {
 				continue
 			case out.GenErr != "":
 				c.Violate("generate:error", fmt.Sprintf("%s  [%s]: %s", g.ruleTexts(), g.desc, out.GenErr), rCase{Kind: "generate", Rules: g.ruleTexts(), TM: tm})
+				continue
+			case out.BuildErr != "" && g.noNtTypes && strings.Contains(out.BuildErr, "value"):
+				c.Violate("typed-terminals-only:generated-code-does-not-build", fmt.Sprintf("%s  [%s]: typed terminals referenced by value, no typed nonterminal: stackEntry is generated without its value field: %s", g.ruleTexts(), g.desc, firstLine(strings.TrimPrefix(out.BuildErr, "# scratch/"+out.Name+"\n"))), rCase{Kind: "build", Rules: g.ruleTexts(), TM: tm})
 				continue
 			case out.BuildErr != "":
 				if g.adj && strings.Contains(out.BuildErr, "syntax error: unexpected {") {
